@@ -1,1 +1,82 @@
-Theorem placeholder : True. Proof. exact I. Qed.
+(** C05 — ADWIN keeps an exact suffix window and shrinks it only on a significant cut.
+    Model: Model/ADWIN.v (rows of buckets, compress cascade, delete, eps_cut scan, shrink loop).
+    Proofs: Proofs/ADWINR.v. *)
+From Coq Require Import ZArith List Bool Reals.
+From FV Require Import NumSys RealA Py Sums Detector ADWIN Structural ADWINR.
+Import ListNotations.
+
+(** After every update the window is exactly a suffix of the stream: there is k such that the
+    bucket list (oldest first, sizes 2^i) partitions the last k values into consecutive
+    segments, each bucket storing the sum and the sum of squared deviations of its segment, and
+    width / total / variance are the count / sum / SSD of those k values.  [AWin] and [Rep] are
+    defined in Proofs/ADWINR.v. *)
+Theorem C05_window_is_suffix : forall (c : adwin_cfg RealA) (vs : list R), (1 <= ad_m c)%Z ->
+  exists k, (k <= length vs)%nat /\ AWin (arun c vs) (lastn k vs).
+Proof. exact adwin_window_is_suffix. Qed.
+Print Assumptions C05_window_is_suffix.
+
+(** what [AWin] says, spelled out *)
+Theorem C05_AWin_unfold : forall (s : adwin_st RealA) (w : list R), AWin s w <->
+  Rep (flat s) w /\ awidth s = Z.of_nat (length w) /\ atotal s = Rsum w /\ avar s = Rssd w.
+Proof. intros; reflexivity. Qed.
+
+(** The window shrinks only at a check (every clock-th update once width > min_num_instances):
+    for every number system. *)
+Theorem C05_shrinks_only_at_checks : forall (A : Arith) (c : adwin_cfg A) (s : adwin_st A) (v : num A),
+  (awidth (adwin_step c s v) < awidth s + 1)%Z -> is_check c (an s + 1) (awidth s + 1) = true.
+Proof. exact adwin_shrinks_only_at_checks. Qed.
+Print Assumptions C05_shrinks_only_at_checks.
+
+(** drift is reported exactly at the updates where data was dropped: for every number system,
+    in every reachable state ([AShape] is an invariant of all reachable states). *)
+Theorem C05_drift_iff_dropped : forall (A : Arith) (c : adwin_cfg A) ops (v : num A), (1 <= ad_m c)%Z ->
+  let s := exec (ADWIND A) c ops in
+  (adrift (adwin_step c s v) = true <-> (awidth (adwin_step c s v) < awidth s + 1)%Z).
+Proof. intros A c ops v Hm s. apply adwin_drift_iff_dropped. apply adwin_shape_reachable. exact Hm. Qed.
+Print Assumptions C05_drift_iff_dropped.
+
+(** A bucket is dropped only when some split of the window (before that drop) into an older
+    part W0 = the first j buckets and a newer part W1, both larger than min_window_size,
+    has sub-window means differing by more than eps_cut ([split_exceeds]) ... *)
+Theorem C05_shrink_justified : forall (c : adwin_cfg RealA) (fuel : nat) (s : adwin_st RealA),
+  snd (shrink c fuel s) = true ->
+  exists j, (1 <= j <= length (flat s))%nat /\
+     let '(w0, w1, t0, t1) := split_at s j in split_exceeds c s w0 w1 t0 t1 = true.
+Proof. intros c fuel s H. apply found_cut_iff. exact (shrink_justified c fuel s H). Qed.
+Print Assumptions C05_shrink_justified.
+
+(** ... where the split's counts and totals ARE those of a contiguous older / newer part of
+    the window ... *)
+Theorem C05_split_meaning : forall (s : adwin_st RealA) (w : list R) (j : nat), AWin s w ->
+  exists wa wb, w = wa ++ wb /\ Rep (firstn j (flat s)) wa /\ Rep (skipn j (flat s)) wb /\
+    split_at s j = (Z.of_nat (length wa), Z.of_nat (length wb), Rsum wa, Rsum wb).
+Proof. exact split_at_meaning. Qed.
+
+(** ... and after a check no bucket-boundary split of the final window exceeds eps_cut. *)
+Theorem C05_after_check_quiet : forall (c : adwin_cfg RealA) (s : adwin_st RealA), AShape s ->
+  let s' := fst (shrink c (S (length (flat s))) s) in
+  forall j, (1 <= j <= length (flat s'))%nat ->
+     let '(w0, w1, t0, t1) := split_at s' j in split_exceeds c s' w0 w1 t0 t1 = false.
+Proof.
+  intros c s HS s' j Hj.
+  pose proof (shrink_quiet c s HS) as Hq. fold s' in Hq.
+  destruct (split_at s' j) as [[[w0 w1] t0] t1] eqn:E.
+  destruct (split_exceeds c s' w0 w1 t0 t1) eqn:Ex; [|reflexivity].
+  exfalso. assert (found_cut c s' = true) as Hf.
+  { apply found_cut_iff. exists j. split; [exact Hj|]. rewrite E. exact Ex. }
+  congruence.
+Qed.
+Print Assumptions C05_after_check_quiet.
+
+(** silent during warm-up (every number system) and on constant non-negative streams (R):
+    see Props/C01.v *)
+
+(** non-vacuity: a binary64 run in which the window really shrinks (drift at the 8th update) *)
+From Coq Require Import PrimFloat.
+From FV Require Import FloatA.
+Example C05_nonvacuous :
+  let c := {| ad_clock := 1; ad_delta := 0x1.ccccccccccccdp-1%float; ad_m := 2; ad_mws := 1; ad_min := 3 |} : adwin_cfg FloatA in
+  map (fun s => (awidth s, adrift s))
+      (trace (ADWIND FloatA) c (map Upd [0;0;0;0;0;0;0;0;9;9;9;9;9]%float)) =
+  [(1,false);(2,false);(3,false);(4,false);(5,false);(6,false);(7,false);(8,false);(9,false);(10,false);(11,false);(4,true);(5,false)]%Z.
+Proof. vm_compute. reflexivity. Qed.
